@@ -103,13 +103,14 @@ func init() {
 
 	register(&Property{
 		ID: "C05", Title: "Call gating and token currency",
-		Explanation: "Decides: both sites of Cache.Call lie behind a call grant on the same continuation path, for the very action value that was checked, and not behind a direct-response status (DOM/gates); CanCall grants only through call == \"*\" or an exact list entry, error first, never for an empty list (TABLE/access); at all 8 request sites the token argument is the connection's token read in the requesting task and the requester is that same connection; the payload builders use the requester's CID() and the given token (PROV/token-cid); token/tid are written only by setToken; the cached verdict is cleared on every trigger and before loadAccess can short-circuit on it (DOM/invalidate); the token is read on the connection worker only (CTX/conn: known finding F11 — the throttled re-access reads it on a fresh goroutine). Not decided: the CanCall list scanner for all strings; validity of an access answer in flight at trigger time.",
+		Explanation: "Decides: both sites of Cache.Call lie behind a call grant on the same continuation path, for the very action value that was checked, and not behind a direct-response status (DOM/gates); CanCall grants only through call == \"*\" or an exact list entry, error first, never for an empty list (TABLE/access); at all 8 request sites the token argument is the connection's token read in the requesting task and the requester is that same connection; the payload builders use the requester's CID() and the given token (PROV/token-cid); token/tid are written only by setToken and every token change re-checks every subscription of the connection, unconditionally (DOM/token-fanout); the cached verdict is cleared on every trigger and before loadAccess can short-circuit on it (DOM/invalidate); the token is read on the connection worker only (CTX/conn: known finding F11 — the throttled re-access reads it on a fresh goroutine). Not decided: the CanCall list scanner for all strings; validity of an access answer in flight at trigger time.",
 		Assumptions: baseAssumptions,
 		Rules: []Rule{
 			{Name: "DOM/gates", Min: 5, Run: ruleGates, Doc: "call forwarded only after the matching grant, with the checked action"},
 			{Name: "TABLE/access", Min: 2, Run: ruleAccessTables, Doc: "decision list of CanCall"},
 			{Name: "DOM/invalidate", Min: 2, Run: ruleInvalidate, Doc: "verdict invalidated on every trigger"},
 			{Name: "PROV/token-cid", Min: 10, Run: ruleTokenCID, Doc: "requests carry the connection's own id and current token"},
+			{Name: "DOM/token-fanout", Min: 1, Run: ruleTokenFanout, Doc: "a token change invalidates the verdict of every subscription of the connection, also indirectly held ones"},
 			{Name: "CTX/conn", Min: 50, Run: ruleConfinement, Doc: "token read on the connection worker only"},
 			{Name: "WHO/token", Min: 2, Run: ruleWho([]whoEntry{
 				{"server.wsConn.token", w("(*server.wsConn).setToken", "token event")},
@@ -134,12 +135,13 @@ func init() {
 
 	register(&Property{
 		ID: "C07", Title: "Exactly one response per client request",
-		Explanation: "Decides, for every path and schedule: rpc.HandleRequest performs exactly one Reply per dispatched request, directly or inside a handler continuation, and Reply is called from nowhere else (LIN/reply); every continuation parameter of the handlers and combinators is consumed exactly once on every full path — called, delegated to another linear function, or parked in a pending slot (LIN/continuations); pending callback slots are cleared only after draining, or when the connection itself goes away (LIN/drain: known finding F9 — Dispose drops ready callbacks on a live connection); continuations run on the connection worker (CTX/conn). Not decided: liveness (that a parked continuation is eventually run), the readyCallback.loading countdown arithmetic.",
+		Explanation: "Decides, for every path and schedule: rpc.HandleRequest performs exactly one Reply per dispatched request, directly or inside a handler continuation, and Reply is called from nowhere else (LIN/reply); every continuation parameter of the handlers and combinators is consumed exactly once on every full path — called, delegated to another linear function, or parked in a pending slot (LIN/continuations); pending callback slots are cleared only after draining, or when the connection itself goes away (LIN/drain: known finding F9 — Dispose drops ready callbacks on a live connection); an answered throttled request always frees its slot, so the access checks queued behind it — and the client requests waiting for them — are not stranded (PAIR/throttle-slot); continuations run on the connection worker (CTX/conn). Not decided: liveness (that a parked continuation is eventually run), the readyCallback.loading countdown arithmetic.",
 		Assumptions: append([]string{"mq.Client.SendRequest completes exactly once (C18)", "a continuation refused by wsConn.Enqueue because the connection is disposing is an accepted drop"}, baseAssumptions...),
 		Rules: []Rule{
 			{Name: "LIN/reply", Min: 1, Run: ruleReply, Doc: "HandleRequest: exactly one Reply per dispatched request; Reply called from nowhere else"},
 			{Name: "LIN/continuations", Min: 25, Run: linAll, Doc: "every linear continuation parameter is consumed exactly once on every full path"},
 			{Name: "LIN/drain", Min: 4, Run: ruleDrain, Doc: "pending callback slots cleared only after draining, or when the connection is gone"},
+			{Name: "PAIR/throttle-slot", Min: 3, Run: rulePairThrottle, Doc: "a governed request that is answered frees its throttle slot: requests waiting behind it (and the client requests depending on them) are not stranded"},
 			{Name: "CTX/conn", Min: 50, Run: ruleConfinement, Doc: "continuations and replies on the connection worker"},
 		},
 	})
